@@ -28,6 +28,11 @@ THEMES = {
                 "<!DOCTYPE x>", "<!DOCTYPE html SYSTEM \"about:legacy-compat\">", "<!DOCTYPE html PUBLIC \"HTML\">", "<!DOCTYPE>",
                 "<p>", "<table>", "x", " ", "<!--c-->", "</p>"],
 }
+# html5lib treats template as an ordinary special element (named deviation tc-no-template: the intended model has the
+# standard's template rules, and its theorems are checked over this alphabet as well)
+THEMES["template"] = ["<template>", "</template>", "<div>", "x", "<table>", "<tr>", "<td>", "<col>", "<select>", "<b>", "</b>", "<form>",
+                      "</form>", "<p>", "<html a=b>", "<body a=b>", "<head>", "</head>", "<frameset>", "<caption>", "<option>", "</table>",
+                      "</select>", "</div>", "<script>", "</script>", "<svg>", "</body>", "<colgroup>", " ", "<title>", "</title>"]
 THEMES["cover"] = ["<b>", "<i>", "<a>", "<nobr>", "<p>", "<div>", "<applet>", "<object>", "<table>", "<caption>", "<colgroup>", "<tbody>", "<tr>",
                    "<td>", "<select>", "<option>", "<optgroup>", "<ul>", "<li>", "<dd>", "<button>", "<form>", "<pre>", "<textarea>",
                    "<title>", "<style>", "<script>", "<noscript>", "<frameset>", "<head>", "<body>", "<html>", "<svg>", "<math>", "<mi>",
